@@ -257,6 +257,20 @@ func boundsRule(c *Ctx, fns map[*ssa.Function]bool, ruleSlice, rulePanic string,
 }
 
 func runC10(c *Ctx) {
+	// "spin without consuming input": the obfs4 data phase skips its blocking read under the
+	// handshake-leftover flag; that this flag is cleared whenever the read is skipped is decided by
+	// C01's remainder rules, which are part of this property too (imported as RS5/RS6)
+	defer func() {
+		sub := NewCtx(c.P, c.Prop, c.Tier)
+		c01Remainder(sub, c.P)
+		for _, o := range sub.Obls {
+			o.Key = strings.Replace(o.Key, c.Prop+".R", c.Prop+".RS", 1)
+			c.Obls = append(c.Obls, o)
+		}
+		for k := range sub.fnSeen {
+			c.fnSeen[k] = true
+		}
+	}()
 	p := c.P
 	cio := newConnIO(p)
 	net, roots := networkFuncs(p)
